@@ -34,6 +34,8 @@ def contents(rng, n):
     out.append({"price": 100, "orders": allk, "matches": [4], "stride": 2})
     # a reserve order without a replenish amount (the one optional field of the format: absent reads as null)
     out.append({"price": 100, "orders": [scen.R(1, 2, 3, 1, -1, True, ts=3)]})
+    # ... and one whose replenish amount is the library's default (80) given explicitly: it is a different content
+    out.append({"price": 100, "orders": [scen.R(1, 2, 90, 1, 80, True, ts=3), scen.R(2, 1, 5, 0, 0, False, ts=4)], "stride": 2})
     # a level at price 0 holding orders of size 0 with timestamp 0; orders whose own price is not the level's
     out.append({"price": 0, "orders": [scen.S(1, 0, ts=0), scen.I(2, 0, 0, ts=0)]})
     out.append({"price": 100, "orders": [dict(scen.S(1, 2, ts=1), px=99), dict(scen.I(1000002, 1, 1, ts=1), px=0)], "stride": 2})
